@@ -14,39 +14,53 @@ Proof.
   eapply kids_all_ok; eauto.
 Qed.
 
-(* what the front end may return *)
-Definition fres_ok (text : str) (r : fres) : Prop :=
-  match r with FRules _ => True | FErrors l => errs_ok text l | FPanic => False | FFuel => True end.
+(* what the front end may return; strict = a panic is excluded *)
+Definition fres_ok (strict : bool) (text : str) (r : fres) : Prop :=
+  match r with FRules _ => True | FErrors l => errs_ok text l | FPanic => strict = false | FFuel => True end.
 
-Theorem frontend_total st builtins fuel text forest :
-  shape_ok text forest = true -> fres_ok text (frontend (repaired st) builtins fuel text forest).
+(* the four C09 repairs *)
+Definition is_repaired (fl : flags) : Prop :=
+  fix_escape fl = true /\ fix_peek fl = true /\ fix_choice fl = true /\ fix_unroll fl = true.
+
+(* for ANY configuration: whatever is reported is located; with the repairs: no panic *)
+Theorem frontend_total_gen (strict : bool) fl builtins fuel text forest :
+  (strict = true -> is_repaired fl) ->
+  shape_ok text forest = true -> fres_ok strict text (frontend fl builtins fuel text forest).
 Proof.
-  intros SH. destruct (shape_ok_forest _ _ SH) as [M F]. unfold frontend.
-  set (lr := fix_lr (repaired st)). set (tg := fix_tag (repaired st)).
+  intros R SH. destruct (shape_ok_forest _ _ SH) as [M F]. unfold frontend.
   pose proof (validate_pairs_ok text builtins forest F) as V1.
-  destruct (validate_pairs text builtins forest) as [u| | |]; cbn [out_ok fres_ok] in *; auto.
-  pose proof (consume_rules_good (repaired st) text eq_refl eq_refl eq_refl fuel forest F) as C.
-  destruct (consume_rules_with_spans (repaired st) text fuel forest) as [rules| | |]; cbn [out_ok fres_ok] in *; auto.
-  pose proof (validate_ast_ok text rules fuel lr tg C builtins (extras (repaired st))) as V2.
-  destruct (validate_ast rules fuel lr tg builtins (extras (repaired st))) as [errs n| |]; cbn [errs_v fres_ok] in *; auto.
+  destruct (validate_pairs text builtins forest) as [u| | |]; cbn [out_ok fres_ok] in *; auto; [|discriminate].
+  pose proof (consume_rules_good fl text strict (fun H => proj1 (R H)) (fun H => proj1 (proj2 (R H))) (fun H => proj1 (proj2 (proj2 (R H)))) fuel forest F) as C.
+  destruct (consume_rules_with_spans fl text fuel forest) as [rules| | |]; cbn [out_ok fres_ok] in *; auto.
+  pose proof (validate_ast_ok text rules fuel (fix_lr fl) (fix_tag fl) C builtins (extras fl)) as V2.
+  destruct (validate_ast rules fuel (fix_lr fl) (fix_tag fl) builtins (extras fl)) as [errs n| |]; cbn [errs_v fres_ok] in *; auto; [|contradiction].
   destruct errs as [|e errs]; [|apply serrs_errs; exact V2].
-  pose proof (optimize_no_panic (extras (repaired st)) (fix_unroll (repaired st)) None fuel (map convert_rule rules) (or_introl eq_refl) (map convert_rule rules)) as O.
-  destruct (optimize _ _ fuel _ _); cbn; auto. apply O; [|reflexivity].
+  destruct (optimize (extras fl) (fix_unroll fl) fuel (map convert_rule rules) (map convert_rule rules)) eqn:O; cbn; auto.
+  destruct strict; [|reflexivity]. exfalso. destruct (R eq_refl) as (_ & _ & _ & RU).
+  eapply (optimize_no_panic (extras fl) (fix_unroll fl) None fuel (map convert_rule rules) (or_introl RU) (map convert_rule rules)); [|exact O].
   apply Forall_map. eapply Forall_impl; [|exact C]. intros r [_ Hr]. cbn. eapply convert_nz; eauto.
 Qed.
 
+Lemma repaired_is_repaired st : is_repaired (repaired st).
+Proof. repeat split. Qed.
+
+Theorem frontend_total st builtins fuel text forest :
+  shape_ok text forest = true -> fres_ok true text (frontend (repaired st) builtins fuel text forest).
+Proof. apply frontend_total_gen. intros _. apply repaired_is_repaired. Qed.
+
 Corollary frontend_no_panic st builtins fuel text forest :
   shape_ok text forest = true -> frontend (repaired st) builtins fuel text forest <> FPanic.
-Proof. intros SH E. pose proof (frontend_total st builtins fuel text forest SH) as T. rewrite E in T. exact T. Qed.
+Proof. intros SH E. pose proof (frontend_total st builtins fuel text forest SH) as T. rewrite E in T. discriminate T. Qed.
 
-Corollary frontend_located st builtins fuel text forest l :
-  shape_ok text forest = true -> frontend (repaired st) builtins fuel text forest = FErrors l ->
+(* every error that ANY configuration reports is located in the text *)
+Corollary frontend_located fl builtins fuel text forest l :
+  shape_ok text forest = true -> frontend fl builtins fuel text forest = FErrors l ->
   forall e, In e l -> match snd e with
                       | LPos p => boundary text p
                       | LSpan a b => a <= b /\ boundary text a /\ boundary text b
                       end.
 Proof.
-  intros SH E e He. pose proof (frontend_total st builtins fuel text forest SH) as T. rewrite E in T. cbn in T.
+  intros SH E e He. pose proof (frontend_total_gen false fl builtins fuel text forest ltac:(discriminate) SH) as T. rewrite E in T. cbn in T.
   unfold errs_ok in T. rewrite Forall_forall in T. specialize (T e He). unfold loc_ok in T.
   destruct (snd e); [exact T|apply span_ok_facts; exact T].
 Qed.
@@ -92,7 +106,7 @@ Proof.
   set (lr := fix_lr (repaired_reader_only st)). set (tg := fix_tag (repaired_reader_only st)).
   pose proof (validate_pairs_ok text builtins forest F) as V1.
   destruct (validate_pairs text builtins forest) as [u| | |]; cbn [out_ok] in *; try discriminate; auto.
-  pose proof (consume_rules_good (repaired_reader_only st) text eq_refl eq_refl eq_refl fuel forest F) as C.
+  pose proof (consume_rules_good (repaired_reader_only st) text true (fun _ => eq_refl) (fun _ => eq_refl) (fun _ => eq_refl) fuel forest F) as C.
   destruct (consume_rules_with_spans (repaired_reader_only st) text fuel forest) as [rules| | |]; cbn [out_ok] in *; try discriminate; auto.
   specialize (CB rules eq_refl).
   pose proof (validate_ast_ok text rules fuel lr tg C builtins (extras (repaired_reader_only st))) as V2.
